@@ -1,7 +1,7 @@
 \* every spec mutation of Weights_Weak_*.cfg in one TLC run: WeakDetect prints <<"REJ", rule, guard>> for each weakened mechanism rule
 \* under which a guard of WeightsGuards breaks; checks/C19.py requires every rule of AllWeak to be printed
-CONSTANTS WeightVecs = {6}  FeatDiag = TRUE  NPods = 2  PodArchs = {1, 2, 6, 8}
-CONSTANTS Feats = {"plain", "limit16", "min2", "archMin2", "teamX", "notReady", "startup"}
+CONSTANTS WeightVecs = {6}  FeatDiag = TRUE  NPods = 2  PodArchs = {1, 2, 6, 8, 9, 10}
+CONSTANTS Feats = {"plain", "limit8", "limit16", "min2", "archMin2", "teamX", "notReady", "startup"}
 CONSTANTS Catalogs = {2}  DaemonSets = {2, 3}  MaxTypesSet = {1, 2}  Policies = {"Strict"}  Weak = "*"
 SPECIFICATION Spec
 INVARIANTS WeakDetect
